@@ -1,6 +1,7 @@
 package checks
 
 import (
+	"fmt"
 	"go/ast"
 	"go/token"
 	"go/types"
@@ -91,6 +92,84 @@ func checkC15(c *core.Ctx) error {
 	}
 	c.Rule("C15.R1", "the float64-specialised forward/backward recursions have the same normalised kernel as the generic ones", 3)
 	checkTwinPairs(c, "C15.R1", c15Pairs)
+	c.Rule("C15.R2", "every recursion over a sequence uses the interior transition matrix Tr only inside its loop over interior positions and the final-step matrix Tf only outside it (sibling agreement of forward, backward, their float64 copies, Viterbi and the posterior recursions)", 7)
+	pkg := c.Pkg("statistics/generic")
+	if pkg == nil {
+		c.Unknown("C15.R2", "statistics/generic", "package", token.NoPos, "not loaded")
+		return nil
+	}
+	core.EachFunc(pkg, func(_ *ast.File, fd *ast.FuncDecl) {
+		// element reads of obj.Tr / obj.Tf
+		type use struct {
+			field string
+			pos   token.Pos
+			inK   bool
+		}
+		var uses []use
+		var walk func(n ast.Node, inK bool)
+		isInterior := func(fs *ast.ForStmt) bool {
+			// for k := 1; k < n-1; k++   |   for k := n-3; k >= 0; k--
+			init, _ := fs.Init.(*ast.AssignStmt)
+			if init == nil || len(init.Rhs) != 1 || fs.Cond == nil {
+				return false
+			}
+			i, c0 := exprStr(init.Rhs[0]), exprStr(fs.Cond)
+			fwd := i == "1" && strings.HasSuffix(c0, "<n-1")
+			bwd := i == "n-3" && strings.HasSuffix(c0, ">=0")
+			return fwd || bwd
+		}
+		walk = func(n ast.Node, inK bool) {
+			ast.Inspect(n, func(x ast.Node) bool {
+				switch st := x.(type) {
+				case *ast.ForStmt:
+					if st != n {
+						walk(st.Body, inK || isInterior(st))
+						return false
+					}
+				case *ast.CallExpr:
+					if se, ok := st.Fun.(*ast.SelectorExpr); ok && (se.Sel.Name == "At" || se.Sel.Name == "ConstAt" || se.Sel.Name == "AT") {
+						if fs, ok := ast.Unparen(se.X).(*ast.SelectorExpr); ok && (fs.Sel.Name == "Tr" || fs.Sel.Name == "Tf") {
+							if nm := core.SelRecvNamed(pkg.TypesInfo, fs); nm != nil && nm.Obj().Name() == "Hmm" {
+								uses = append(uses, use{fs.Sel.Name, st.Pos(), inK})
+							}
+						}
+					}
+				}
+				return true
+			})
+		}
+		walk(fd.Body, false)
+		hasTr, hasTf := false, false
+		for _, u := range uses {
+			if u.field == "Tr" {
+				hasTr = true
+			} else {
+				hasTf = true
+			}
+		}
+		anyInterior := false
+		ast.Inspect(fd.Body, func(x ast.Node) bool {
+			if fs, ok := x.(*ast.ForStmt); ok && isInterior(fs) {
+				anyInterior = true
+			}
+			return true
+		})
+		if !hasTr || !hasTf || !anyInterior {
+			return
+		}
+		cons := c.FuncName(pkg, fd)
+		bad := ""
+		var pos token.Pos
+		for _, u := range uses {
+			if u.field == "Tr" && !u.inK {
+				bad, pos = "the interior transition matrix Tr is read outside the loop over interior positions (the final step must use Tf, which encodes the final-state restriction)", u.pos
+			}
+			if u.field == "Tf" && u.inK {
+				bad, pos = "the final-step matrix Tf is read inside the loop over interior positions (interior transitions must use Tr)", u.pos
+			}
+		}
+		c.Check(bad == "", "C15.R2", cons, "Tr inside / Tf outside the interior loop", pos, bad)
+	})
 	return nil
 }
 
@@ -324,6 +403,82 @@ func checkLaundering(c *core.Ctx) {
 					return true
 				})
 			}
+			// value-dependent term dropping: continue/break guarded by an exact-zero test of an element value
+			var ifStack []*ast.IfStmt
+			var loopStack []*ast.ForStmt
+			var visit func(n ast.Node)
+			visit = func(n ast.Node) {
+				ast.Inspect(n, func(x ast.Node) bool {
+					switch st := x.(type) {
+					case *ast.ForStmt:
+						if st != n {
+							loopStack = append(loopStack, st)
+							saved := ifStack
+							ifStack = nil
+							visit(st.Body)
+							ifStack = saved
+							loopStack = loopStack[:len(loopStack)-1]
+							return false
+						}
+					case *ast.IfStmt:
+						if st != n {
+							ifStack = append(ifStack, st)
+							visit(st.Body)
+							ifStack = ifStack[:len(ifStack)-1]
+							if st.Else != nil {
+								visit(st.Else)
+							}
+							return false
+						}
+					case *ast.BranchStmt:
+						// only 'continue' in a counted loop skips one index of a sum/expansion; breaks and
+						// convergence loops are search/deflation decisions
+						if st.Tok != token.CONTINUE || len(loopStack) == 0 {
+							return true
+						}
+						if cl, _ := classifyLoop(info, loopStack[len(loopStack)-1]); cl != "counted" {
+							return true
+						}
+						// the loop accumulates into a scalar (X.Add(X, t) / X.Sub(X, t)): skipping a cycle drops a term
+						accum := false
+						ast.Inspect(loopStack[len(loopStack)-1].Body, func(y ast.Node) bool {
+							if ce, ok := y.(*ast.CallExpr); ok && len(ce.Args) >= 1 {
+								nm := strings.ToLower(calleeName(ce))
+								if nm == "add" || nm == "sub" || nm == "logadd" {
+									if se, ok := ce.Fun.(*ast.SelectorExpr); ok && exprStr(se.X) == exprStr(ce.Args[0]) {
+										if _, isId := ast.Unparen(se.X).(*ast.Ident); isId {
+											accum = true
+										}
+									}
+								}
+							}
+							return true
+						})
+						if !accum {
+							return true
+						}
+						zeroTest := ""
+						if len(ifStack) > 0 {
+							cond := ifStack[len(ifStack)-1].Cond
+							ast.Inspect(cond, func(y ast.Node) bool {
+								be, ok := y.(*ast.BinaryExpr)
+								if !ok || (be.Op != token.EQL && be.Op != token.NEQ) {
+									return true
+								}
+								isZ := func(e ast.Expr) bool { return isZeroLit(info, e) }
+								if (isZ(be.X) && isSource(be.Y)) || (isZ(be.Y) && isSource(be.X)) {
+									zeroTest = exprStr(cond)
+								}
+								return true
+							})
+						}
+						c.Check(zeroTest == "", "C06.R2", cons, st.Tok.String()+" at "+fmt.Sprint(len(ifStack))+" nested ifs", st.Pos(),
+							"a loop cycle is skipped because an element's value is exactly zero ("+zeroTest+"): the skipped term still contributes derivatives when that element is an activated variable")
+					}
+					return true
+				})
+			}
+			visit(fd.Body)
 			nsinks := 0
 			ast.Inspect(fd.Body, func(n ast.Node) bool {
 				ce, ok := n.(*ast.CallExpr)
